@@ -22,7 +22,11 @@ func decide(c *an.Ctx, rule, fnKey string, cfg an.DecideCfg) {
 	case res.Und != "":
 		c.Und(rule, fnKey, fn.Pos(), "decision table cannot be extracted: %s", res.Und)
 	case res.Mismatch != "":
-		c.Bad(rule, fnKey, fn.Pos(), "decision table differs from the reference: %s", res.Mismatch)
+		extra := ""
+		if len(res.Free) > 0 {
+			extra = " (conditions outside the reference model were explored in both directions: " + strings.Join(uniq(res.Free), "; ") + ")"
+		}
+		c.Bad(rule, fnKey, fn.Pos(), "decision table differs from the reference: %s%s", res.Mismatch, extra)
 	default:
 		rows := res.Rows
 		if len(rows) > 4 {
@@ -51,4 +55,15 @@ func inlinePkgs(prefixes []string, except ...string) func(*ssa.Function) bool {
 		}
 		return false
 	}
+}
+
+func uniq(ss []string) (out []string) {
+	seen := map[string]bool{}
+	for _, s := range ss {
+		if !seen[s] {
+			seen[s] = true
+			out = append(out, s)
+		}
+	}
+	return out
 }
